@@ -43,6 +43,17 @@ func (P *Prog) returnValues() map[string][]string {
 				if unstableTermRe.MatchString(t) || len(t) > 600 {
 					continue
 				}
+				// a verdict returned on the branch that tested it (`v, ok := f(); if !ok { return v, ok }`) is the
+				// constant the test established, not a value of its own
+				tested := false
+				for _, g := range a.G {
+					if g.T != nil && canonAtom(g.T.String()) == t {
+						tested = true
+					}
+				}
+				if tested {
+					continue
+				}
 				if strings.HasPrefix(t, "makeslice(") || strings.HasPrefix(t, "addr:") || strings.Contains(t, "addr:new") {
 					continue // a buffer (its content is in the stores) or an object mutated in place (judged by the rules of its type)
 				}
